@@ -105,14 +105,15 @@ let iso (orig : Model.positive -> bool) (m : Model.snap) (ps : psnap) (what : st
 let mem (m : Model.node Model.PositiveMap.t) (id : Model.positive) = Model.PositiveMap.find id m <> None
 
 (* Ok () | Error (kind, message) *)
-let check (pp : psnap) (ps : psnap) (i : int) : (unit, string * string) result =
+let check ?(kname = "bdd") (pp : psnap) (ps : psnap) (i : int) : (unit, string * string) result =
+  let level_swap = if kname = "bcdd" then Model.level_swap_c else Model.level_swap in
   let n = Array.length pp.l2v in
   if i + 1 >= n then Error ("corr", "level swap position out of range")
   else if not (Model.wf_b pp.snap) then
     (* hypothesis of the theorems C08_level_swap_xxx: reported by the structural audit already *)
     Error ("corr", "snapshot before the swap is not well-formed (hypothesis of the level_swap theorems)")
   else begin
-    let m = Model.level_swap pp.snap (nat i) in
+    let m = level_swap pp.snap (nat i) in
     stat "c08_swaps_replayed" 1;
     stat "c08_swap_new_nodes"
       (List.length (List.filter (fun (id, _) -> not (mem pp.snap.Model.s_nodes id)) (Model.PositiveMap.elements m.Model.s_nodes)));
@@ -128,7 +129,9 @@ let check (pp : psnap) (ps : psnap) (i : int) : (unit, string * string) result =
 let max_nodes = match Sys.getenv_opt "C08_REPLAY_MAX_NODES" with Some v -> int_of_string v | None -> 1200
 
 (* set_var_order(req) between the snapshots [pp] and [ps]; [None] = not applicable *)
-let check_order (pp : psnap) (ps : psnap) (req : int list) : (unit, string * string) result option =
+let check_order ?(kname = "bdd") (pp : psnap) (ps : psnap) (req : int list) : (unit, string * string) result option =
+  let level_swap = if kname = "bcdd" then Model.level_swap_c else Model.level_swap in
+  let set_var_order_model = if kname = "bcdd" then Model.set_var_order_model_c else Model.set_var_order_model in
   let n = Array.length pp.l2v in
   let distinct = List.length (List.sort_uniq compare req) = List.length req in
   let nonempty =
@@ -152,12 +155,12 @@ let check_order (pp : psnap) (ps : psnap) (req : int list) : (unit, string * str
     let m =
       List.fold_left
         (fun s k ->
-          let s' = Model.level_swap s k in
+          let s' = level_swap s k in
           Hashtbl.filter_map_inplace (fun id () -> if mem s'.Model.s_nodes (pos_of_z (Z.succ (Z.of_string id))) then Some () else None) orig;
           s')
         pp.snap swaps in
     (* the unfolded composition is the model the theorems are about *)
-    let m' = Model.set_var_order_model pp.snap (List.map nat req) in
+    let m' = set_var_order_model pp.snap (List.map nat req) in
     if List.map (fun (id, _) -> pid id) (Model.PositiveMap.elements m.Model.s_nodes)
        <> List.map (fun (id, _) -> pid id) (Model.PositiveMap.elements m'.Model.s_nodes)
        || List.map int_of_nat m.Model.s_v2l <> List.map int_of_nat m'.Model.s_v2l then
